@@ -237,11 +237,348 @@ func Main(args []string) int {
 		}
 		sort.Strings(files)
 	}
-	var cases []*mcase
+	nCases := 0
 	var cmu sync.Mutex
 	smallLimit := int64(9000)
 	nodesBig := r.N(10, 200)
-	ev.Parallel(len(files), runtime.NumCPU(), func(i int) {
+	// shared accumulators
+	var amu sync.Mutex
+	var died []string
+	var maxCPU int64
+	var maxAlloc uint64
+	relTally := map[string]int{}
+	same, diff := 0, 0
+	docPar := 4
+	if !r.Thorough() {
+		docPar = 8 // small documents, few batches each
+	}
+	inner := runtime.NumCPU() / 4
+	// largest documents first, so that they do not form the tail of the run
+	sort.SliceStable(files, func(i, j int) bool {
+		si, _ := os.Stat(files[i])
+		sj, _ := os.Stat(files[j])
+		return si.Size() > sj.Size()
+	})
+	// processCases runs and decides the cases of ONE document (memory stays bounded by one document)
+	processCases := func(cases []*mcase) {
+		sort.Slice(cases, func(i, j int) bool { return cases[i].id < cases[j].id })
+		if len(cases) == 0 {
+			return
+		}
+		byID := map[string]*mcase{}
+		for _, c := range cases {
+			byID[c.id] = c
+		}
+
+		// ---- run in worker batches
+		results := map[string]*wline{}
+		var rmu sync.Mutex
+		batchSize := 60
+		var batches [][]*mcase
+		for i := 0; i < len(cases); i += batchSize {
+			j := i + batchSize
+			if j > len(cases) {
+				j = len(cases)
+			}
+			batches = append(batches, cases[i:j])
+		}
+		runBatch := func(bi int, batch []*mcase, depth int) {}
+		var runB func(tag string, batch []*mcase, depth int)
+		runB = func(tag string, batch []*mcase, depth int) {
+			if len(batch) == 0 {
+				return
+			}
+			out := filepath.Join(scratch, "out-"+tag+".jsonl")
+			var items []genlab.Item
+			for _, c := range batch {
+				it := c.base
+				it.ID = c.id
+				it.Text = string(c.text)
+				it.Name = "spec"
+				// the template stage (goimports) dominates cost and rarely depends on the fault: in the quick
+				// tier it is run for every 8th case and for all baselines
+				if !r.Thorough() && c.class != "baseline" && hash(c.id)%8 != 0 {
+					it.NoWrite = true
+				}
+				items = append(items, it)
+			}
+			jb, _ := json.Marshal(wjob{Items: items, Runs: 1, Out: out, Workdir: mod.Dir, Errs: true})
+			jf := filepath.Join(scratch, "job-"+tag+".json")
+			os.WriteFile(jf, jb, 0o644)
+			// generous wall-clock watchdog: its firing alone is inconclusive, the CPU ceiling decides
+			stdout, werr := genlab.RunIn(mod.Dir, 25*time.Minute, genlab.GoEnv("GOMAXPROCS=2"), bin, jf)
+			os.Remove(jf)
+			f, err := os.Open(out)
+			last := ""
+			done := map[string]bool{}
+			if err == nil {
+				sc := bufio.NewScanner(f)
+				sc.Buffer(make([]byte, 1<<20), 256<<20)
+				for sc.Scan() {
+					var l wline
+					if json.Unmarshal(sc.Bytes(), &l) != nil {
+						continue
+					}
+					if l.Start != "" {
+						last = l.Start
+						continue
+					}
+					last = ""
+					ll := l
+					rmu.Lock()
+					results[l.ID] = &ll
+					rmu.Unlock()
+					done[l.ID] = true
+				}
+				f.Close()
+				os.Remove(out)
+			}
+			if werr != nil {
+				if strings.Contains(werr.Error(), "watchdog") {
+					r.Inconclusive("worker-watchdog", last)
+				}
+				if last != "" {
+					rmu.Lock()
+					amu.Lock()
+					died = append(died, last)
+					amu.Unlock()
+					results[last] = &wline{ID: last, Stage: "died", Err: headTail(stdout, 2500), PanicAt: recursionSite(stdout)}
+					rmu.Unlock()
+					done[last] = true
+				}
+				// re-run what was not reached
+				var rest []*mcase
+				for _, c := range batch {
+					if !done[c.id] {
+						rest = append(rest, c)
+					}
+				}
+				if len(rest) < len(batch) && depth < 20 {
+					runB(tag+"r", rest, depth+1)
+				} else if len(rest) > 0 {
+					r.Inconclusive("worker-failed-without-progress", tailStr(stdout, 500))
+				}
+			}
+		}
+		_ = runBatch
+		ev.Parallel(len(batches), inner, func(bi int) {
+			runB(fmt.Sprintf("%x-%04d", hash(cases[0].doc), bi), batches[bi], 0)
+		})
+
+		// ---- decide
+		cpuRef := map[string]int64{}
+		allocRef := map[string]uint64{}
+		for _, c := range cases {
+			if c.class == "baseline" {
+				if l := results[c.id]; l != nil {
+					if l.CPUms > cpuRef[c.doc] {
+						cpuRef[c.doc] = l.CPUms
+					}
+					if l.AllocB > allocRef[c.doc] {
+						allocRef[c.doc] = l.AllocB
+					}
+				}
+			}
+		}
+		baselineFails := map[string]bool{}
+		for _, c := range cases {
+			if c.class == "baseline" {
+				if l := results[c.id]; l != nil && l.Stage != "ok" {
+					baselineFails[c.doc] = true
+				}
+			}
+		}
+		localRel := map[string]int{}
+		pairNodes := map[string]map[string][]string{} // doc|mut -> style -> reported node paths
+		for _, c := range cases {
+			l := results[c.id]
+			if l == nil {
+				r.Inconclusive("case-not-run", c.id)
+				continue
+			}
+			r.Eval(1)
+			if c.class != "baseline" {
+				r.Distinct(c.id)
+			}
+			r.Count("stage_"+l.Stage, 1)
+			r.Count("class_"+c.class, 1)
+			if c.mut != nil {
+				r.Count("mutation_"+c.mut.Kind, 1)
+			}
+			w := map[string]any{"document": c.doc, "style": c.style, "class": c.class, "stage": l.Stage, "error": tailStr(l.Err, 700), "cpu_ms": l.CPUms, "alloc_bytes": l.AllocB}
+			if c.mut != nil {
+				w["mutation"] = c.mut.Kind
+				w["mutated_at"] = c.mut.At
+				w["focus"] = c.mut.Focus.String()
+			}
+			save := func() {
+				p := filepath.Join(ev.Root(), "replay", "C11", "inputs", fmt.Sprintf("%x.txt", hash(c.id)))
+				os.MkdirAll(filepath.Dir(p), 0o755)
+				os.WriteFile(p, c.text, 0o644)
+				w["input_file"] = p
+			}
+			sigLoc := func() string {
+				if c.mut != nil {
+					return c.mut.Kind
+				}
+				return c.class
+			}
+			// (1) totality
+			if l.Stage == "died" {
+				save()
+				w["recursion_site"] = l.PanicAt
+				r.Violate("fatal:"+fatalClass(l.Err)+":"+l.PanicAt, fmt.Sprintf("%s: worker process died while handling this input (%s in %s)", c.id, fatalClass(l.Err), l.PanicAt), w)
+				continue
+			}
+			if l.Panic != "" {
+				save()
+				w["panic_frames"] = l.PanicAt
+				site := l.PanicAt
+				if i := strings.Index(site, " < "); i >= 0 {
+					site = site[:i]
+				}
+				r.Violate("panic:"+site+":"+panicClass(l.Panic), fmt.Sprintf("%s: panic in %s: %s", c.id, l.PanicAt, firstLine(l.Panic)), w)
+				continue
+			}
+			if l.Stage != "ok" && l.Err == "" {
+				save()
+				r.Violate("failure-without-error", fmt.Sprintf("%s: stopped at stage %s without an error", c.id, l.Stage), w)
+			}
+			amu.Lock()
+			if l.CPUms > maxCPU {
+				maxCPU = l.CPUms
+			}
+			if l.AllocB > maxAlloc {
+				maxAlloc = l.AllocB
+			}
+			amu.Unlock()
+			cpuCeil := int64(30000)
+			if v := cpuRef[c.doc] * 100; v > cpuCeil {
+				cpuCeil = v
+			}
+			allocCeil := uint64(8 << 30)
+			if v := allocRef[c.doc] * 100; v > allocCeil {
+				allocCeil = v
+			}
+			if l.CPUms > cpuCeil {
+				save()
+				r.Violate("cpu-ceiling:"+sigLoc(), fmt.Sprintf("%s: %d ms CPU (ceiling %d ms = max(30 s, 100 x unmutated document))", c.id, l.CPUms, cpuCeil), w)
+			}
+			if l.AllocB > allocCeil {
+				save()
+				r.Violate("alloc-ceiling:"+sigLoc(), fmt.Sprintf("%s: %d bytes allocated (ceiling %d)", c.id, l.AllocB, allocCeil), w)
+			}
+			// (2) positions
+			if l.Stage == "ok" || len(l.Pos) == 0 {
+				if l.Stage != "ok" {
+					r.Count("errors_without_position", 1)
+				}
+				continue
+			}
+			r.Count("errors_with_position", 1)
+			var reported []string
+			for _, p := range l.Pos {
+				if p.File != "" && p.File != "spec" {
+					r.Count("positions_in_other_files", 1)
+					continue
+				}
+				// valid coordinate
+				if p.Line < 1 || p.Line > c.ix.lines+1 {
+					w["position"] = p
+					save()
+					r.Violate("position-outside-document", fmt.Sprintf("%s: reported line %d but the document has %d lines", c.id, p.Line, c.ix.lines), w)
+					continue
+				}
+				if p.Kind == "line-only" || c.class == "bytes" || c.ix.starts == nil {
+					if p.Kind != "line-only" && p.Line <= len(c.ix.lineLens) && p.Col > c.ix.lineLens[p.Line-1]+2 {
+						w["position"] = p
+						save()
+						r.Violate("position-outside-document", fmt.Sprintf("%s: reported %d:%d but that line has %d bytes", c.id, p.Line, p.Col, c.ix.lineLens[p.Line-1]), w)
+					}
+					continue
+				}
+				nodes := c.ix.starts[[2]int{p.Line, p.Col}]
+				if len(nodes) == 0 {
+					w["position"] = p
+					save()
+					r.Violate("position-not-a-node-start", fmt.Sprintf("%s: reported %d:%d is not the start of any node or member name of the document", c.id, p.Line, p.Col), w)
+					continue
+				}
+				r.Count("positions_at_node_start", 1)
+				if p.Kind == "innermost" {
+					var alts []string
+					for _, q := range nodes {
+						alts = append(alts, q.String())
+					}
+					reported = append(reported, strings.Join(alts, "|"))
+				}
+				if c.mut == nil {
+					continue
+				}
+				if baselineFails[c.doc] {
+					// the unmutated document already carries a fault of its own: which of the two ogen reports is not prescribed
+					r.Count("positions_in_documents_failing_before_mutation", 1)
+					continue
+				}
+				okRel := false
+				why := ""
+				for _, q := range nodes {
+					ok, y := related(treeOf(c), q, c.mut)
+					if ok {
+						okRel = true
+						why = y
+						break
+					}
+					why = y
+				}
+				localRel[why]++
+				if !okRel {
+					w["position"] = p
+					w["reported_node"] = nodes[0].String()
+					save()
+					r.Violate("position-unrelated:"+c.mut.Kind+":"+why, fmt.Sprintf("%s: fault at %s, reported %d:%d = node %s (%s): %s", c.id, c.mut.Focus, p.Line, p.Col, nodes[0], why, firstLine(l.Err)), w)
+				}
+			}
+			if c.mut != nil {
+				k := c.doc + "|" + c.mut.Kind + "@" + c.mut.At
+				if pairNodes[k] == nil {
+					pairNodes[k] = map[string][]string{}
+				}
+				sort.Strings(reported)
+				pairNodes[k][c.style] = reported
+			}
+			if len(r.SamplesLen()) < 8 && c.mut != nil {
+				w["positions"] = l.Pos
+				r.Sample(w)
+			}
+		}
+		// (3) JSON vs YAML spelling report the same node
+		lsame, ldiff := 0, 0
+		for k, m := range pairNodes {
+			j, okj := m["json-indent2"]
+			y, oky := m["yaml-block2"]
+			if !okj || !oky {
+				continue
+			}
+			if sameNodes(j, y) {
+				lsame++
+			} else {
+				ldiff++
+				if ldiff <= 2 {
+					r.Inconclusive("json-and-yaml-report-different-nodes", map[string]any{"case": k, "json": j, "yaml": y})
+				}
+			}
+		}
+		amu.Lock()
+		same += lsame
+		diff += ldiff
+		for k, v := range localRel {
+			relTally[k] += v
+		}
+		amu.Unlock()
+
+	}
+	ev.Parallel(len(files), docPar, func(i int) {
 		p := files[i]
 		b, err := os.ReadFile(p)
 		if err != nil {
@@ -332,318 +669,15 @@ func Main(args []string) int {
 				local = append(local, &mcase{id: id + "|bytes|" + what, doc: id, style: "bytes", text: mb, ix: ix, base: base, class: "bytes"})
 			}
 		}
+		processCases(local)
 		cmu.Lock()
-		cases = append(cases, local...)
+		nCases += len(local)
 		cmu.Unlock()
 	})
 	_ = rng
-	sort.Slice(cases, func(i, j int) bool { return cases[i].id < cases[j].id })
-	if len(cases) == 0 {
+	if nCases == 0 {
 		fmt.Println("ERROR no cases")
 		return 2
-	}
-	byID := map[string]*mcase{}
-	for _, c := range cases {
-		byID[c.id] = c
-	}
-
-	// ---- run in worker batches
-	results := map[string]*wline{}
-	var rmu sync.Mutex
-	batchSize := 60
-	var batches [][]*mcase
-	for i := 0; i < len(cases); i += batchSize {
-		j := i + batchSize
-		if j > len(cases) {
-			j = len(cases)
-		}
-		batches = append(batches, cases[i:j])
-	}
-	var died []string
-	runBatch := func(bi int, batch []*mcase, depth int) {}
-	var runB func(tag string, batch []*mcase, depth int)
-	runB = func(tag string, batch []*mcase, depth int) {
-		if len(batch) == 0 {
-			return
-		}
-		out := filepath.Join(scratch, "out-"+tag+".jsonl")
-		var items []genlab.Item
-		for _, c := range batch {
-			it := c.base
-			it.ID = c.id
-			it.Text = string(c.text)
-			it.Name = "spec"
-			// the template stage (goimports) dominates cost and rarely depends on the fault: in the quick
-			// tier it is run for every 5th case and for all baselines
-			if !r.Thorough() && c.class != "baseline" && hash(c.id)%5 != 0 {
-				it.NoWrite = true
-			}
-			items = append(items, it)
-		}
-		jb, _ := json.Marshal(wjob{Items: items, Runs: 1, Out: out, Workdir: mod.Dir, Errs: true})
-		jf := filepath.Join(scratch, "job-"+tag+".json")
-		os.WriteFile(jf, jb, 0o644)
-		// generous wall-clock watchdog: its firing alone is inconclusive, the CPU ceiling decides
-		stdout, werr := genlab.RunIn(mod.Dir, 25*time.Minute, genlab.GoEnv("GOMAXPROCS=2"), bin, jf)
-		os.Remove(jf)
-		f, err := os.Open(out)
-		last := ""
-		done := map[string]bool{}
-		if err == nil {
-			sc := bufio.NewScanner(f)
-			sc.Buffer(make([]byte, 1<<20), 256<<20)
-			for sc.Scan() {
-				var l wline
-				if json.Unmarshal(sc.Bytes(), &l) != nil {
-					continue
-				}
-				if l.Start != "" {
-					last = l.Start
-					continue
-				}
-				last = ""
-				ll := l
-				rmu.Lock()
-				results[l.ID] = &ll
-				rmu.Unlock()
-				done[l.ID] = true
-			}
-			f.Close()
-			os.Remove(out)
-		}
-		if werr != nil {
-			if strings.Contains(werr.Error(), "watchdog") {
-				r.Inconclusive("worker-watchdog", last)
-			}
-			if last != "" {
-				rmu.Lock()
-				died = append(died, last)
-				results[last] = &wline{ID: last, Stage: "died", Err: headTail(stdout, 2500), PanicAt: recursionSite(stdout)}
-				rmu.Unlock()
-				done[last] = true
-			}
-			// re-run what was not reached
-			var rest []*mcase
-			for _, c := range batch {
-				if !done[c.id] {
-					rest = append(rest, c)
-				}
-			}
-			if len(rest) < len(batch) && depth < 20 {
-				runB(tag+"r", rest, depth+1)
-			} else if len(rest) > 0 {
-				r.Inconclusive("worker-failed-without-progress", tailStr(stdout, 500))
-			}
-		}
-	}
-	_ = runBatch
-	ev.Parallel(len(batches), runtime.NumCPU(), func(bi int) {
-		runB(fmt.Sprintf("%04d", bi), batches[bi], 0)
-	})
-
-	// ---- decide
-	cpuRef := map[string]int64{}
-	allocRef := map[string]uint64{}
-	for _, c := range cases {
-		if c.class == "baseline" {
-			if l := results[c.id]; l != nil {
-				if l.CPUms > cpuRef[c.doc] {
-					cpuRef[c.doc] = l.CPUms
-				}
-				if l.AllocB > allocRef[c.doc] {
-					allocRef[c.doc] = l.AllocB
-				}
-			}
-		}
-	}
-	baselineFails := map[string]bool{}
-	for _, c := range cases {
-		if c.class == "baseline" {
-			if l := results[c.id]; l != nil && l.Stage != "ok" {
-				baselineFails[c.doc] = true
-			}
-		}
-	}
-	var maxCPU int64
-	var maxAlloc uint64
-	relTally := map[string]int{}
-	pairNodes := map[string]map[string][]string{} // doc|mut -> style -> reported node paths
-	for _, c := range cases {
-		l := results[c.id]
-		if l == nil {
-			r.Inconclusive("case-not-run", c.id)
-			continue
-		}
-		r.Eval(1)
-		if c.class != "baseline" {
-			r.Distinct(c.id)
-		}
-		r.Count("stage_"+l.Stage, 1)
-		r.Count("class_"+c.class, 1)
-		if c.mut != nil {
-			r.Count("mutation_"+c.mut.Kind, 1)
-		}
-		w := map[string]any{"document": c.doc, "style": c.style, "class": c.class, "stage": l.Stage, "error": tailStr(l.Err, 700), "cpu_ms": l.CPUms, "alloc_bytes": l.AllocB}
-		if c.mut != nil {
-			w["mutation"] = c.mut.Kind
-			w["mutated_at"] = c.mut.At
-			w["focus"] = c.mut.Focus.String()
-		}
-		save := func() {
-			p := filepath.Join(ev.Root(), "replay", "C11", "inputs", fmt.Sprintf("%x.txt", hash(c.id)))
-			os.MkdirAll(filepath.Dir(p), 0o755)
-			os.WriteFile(p, c.text, 0o644)
-			w["input_file"] = p
-		}
-		sigLoc := func() string {
-			if c.mut != nil {
-				return c.mut.Kind
-			}
-			return c.class
-		}
-		// (1) totality
-		if l.Stage == "died" {
-			save()
-			w["recursion_site"] = l.PanicAt
-			r.Violate("fatal:"+fatalClass(l.Err)+":"+l.PanicAt, fmt.Sprintf("%s: worker process died while handling this input (%s in %s)", c.id, fatalClass(l.Err), l.PanicAt), w)
-			continue
-		}
-		if l.Panic != "" {
-			save()
-			w["panic_frames"] = l.PanicAt
-			site := l.PanicAt
-			if i := strings.Index(site, " < "); i >= 0 {
-				site = site[:i]
-			}
-			r.Violate("panic:"+site+":"+panicClass(l.Panic), fmt.Sprintf("%s: panic in %s: %s", c.id, l.PanicAt, firstLine(l.Panic)), w)
-			continue
-		}
-		if l.Stage != "ok" && l.Err == "" {
-			save()
-			r.Violate("failure-without-error", fmt.Sprintf("%s: stopped at stage %s without an error", c.id, l.Stage), w)
-		}
-		if l.CPUms > maxCPU {
-			maxCPU = l.CPUms
-		}
-		if l.AllocB > maxAlloc {
-			maxAlloc = l.AllocB
-		}
-		cpuCeil := int64(30000)
-		if v := cpuRef[c.doc] * 100; v > cpuCeil {
-			cpuCeil = v
-		}
-		allocCeil := uint64(8 << 30)
-		if v := allocRef[c.doc] * 100; v > allocCeil {
-			allocCeil = v
-		}
-		if l.CPUms > cpuCeil {
-			save()
-			r.Violate("cpu-ceiling:"+sigLoc(), fmt.Sprintf("%s: %d ms CPU (ceiling %d ms = max(30 s, 100 x unmutated document))", c.id, l.CPUms, cpuCeil), w)
-		}
-		if l.AllocB > allocCeil {
-			save()
-			r.Violate("alloc-ceiling:"+sigLoc(), fmt.Sprintf("%s: %d bytes allocated (ceiling %d)", c.id, l.AllocB, allocCeil), w)
-		}
-		// (2) positions
-		if l.Stage == "ok" || len(l.Pos) == 0 {
-			if l.Stage != "ok" {
-				r.Count("errors_without_position", 1)
-			}
-			continue
-		}
-		r.Count("errors_with_position", 1)
-		var reported []string
-		for _, p := range l.Pos {
-			if p.File != "" && p.File != "spec" {
-				r.Count("positions_in_other_files", 1)
-				continue
-			}
-			// valid coordinate
-			if p.Line < 1 || p.Line > c.ix.lines+1 {
-				w["position"] = p
-				save()
-				r.Violate("position-outside-document", fmt.Sprintf("%s: reported line %d but the document has %d lines", c.id, p.Line, c.ix.lines), w)
-				continue
-			}
-			if p.Kind == "line-only" || c.class == "bytes" || c.ix.starts == nil {
-				if p.Kind != "line-only" && p.Line <= len(c.ix.lineLens) && p.Col > c.ix.lineLens[p.Line-1]+2 {
-					w["position"] = p
-					save()
-					r.Violate("position-outside-document", fmt.Sprintf("%s: reported %d:%d but that line has %d bytes", c.id, p.Line, p.Col, c.ix.lineLens[p.Line-1]), w)
-				}
-				continue
-			}
-			nodes := c.ix.starts[[2]int{p.Line, p.Col}]
-			if len(nodes) == 0 {
-				w["position"] = p
-				save()
-				r.Violate("position-not-a-node-start", fmt.Sprintf("%s: reported %d:%d is not the start of any node or member name of the document", c.id, p.Line, p.Col), w)
-				continue
-			}
-			r.Count("positions_at_node_start", 1)
-			if p.Kind == "innermost" {
-				var alts []string
-				for _, q := range nodes {
-					alts = append(alts, q.String())
-				}
-				reported = append(reported, strings.Join(alts, "|"))
-			}
-			if c.mut == nil {
-				continue
-			}
-			if baselineFails[c.doc] {
-				// the unmutated document already carries a fault of its own: which of the two ogen reports is not prescribed
-				r.Count("positions_in_documents_failing_before_mutation", 1)
-				continue
-			}
-			okRel := false
-			why := ""
-			for _, q := range nodes {
-				ok, y := related(treeOf(c), q, c.mut)
-				if ok {
-					okRel = true
-					why = y
-					break
-				}
-				why = y
-			}
-			relTally[why]++
-			if !okRel {
-				w["position"] = p
-				w["reported_node"] = nodes[0].String()
-				save()
-				r.Violate("position-unrelated:"+c.mut.Kind+":"+why, fmt.Sprintf("%s: fault at %s, reported %d:%d = node %s (%s): %s", c.id, c.mut.Focus, p.Line, p.Col, nodes[0], why, firstLine(l.Err)), w)
-			}
-		}
-		if c.mut != nil {
-			k := c.doc + "|" + c.mut.Kind + "@" + c.mut.At
-			if pairNodes[k] == nil {
-				pairNodes[k] = map[string][]string{}
-			}
-			sort.Strings(reported)
-			pairNodes[k][c.style] = reported
-		}
-		if len(r.SamplesLen()) < 8 && c.mut != nil {
-			w["positions"] = l.Pos
-			r.Sample(w)
-		}
-	}
-	// (3) JSON vs YAML spelling report the same node
-	same, diff := 0, 0
-	for k, m := range pairNodes {
-		j, okj := m["json-indent2"]
-		y, oky := m["yaml-block2"]
-		if !okj || !oky {
-			continue
-		}
-		if sameNodes(j, y) {
-			same++
-		} else {
-			diff++
-			if diff <= 5 {
-				r.Inconclusive("json-and-yaml-report-different-nodes", map[string]any{"case": k, "json": j, "yaml": y})
-			}
-		}
 	}
 	r.Set("json_yaml_pairs_same_node", same)
 	r.Set("json_yaml_pairs_different_node", diff)
